@@ -54,16 +54,17 @@ func c11Ops() []histOp {
 		{"read-X0", Print("X[0]"), false}, {"read-Ylast", Print("Y[" + L("Y") + " - 1]"), false}, {"read-negzero", Print("X[-0]"), false},
 		// faulting steps
 		{"read-neg", Print("X[-1]"), true}, {"read-len", Print("X[" + L("X") + "]"), true}, {"read-frac", Print("X[1.5]"), true},
+		{"read-near-integer", Print("X[0.3 / 0.1 - 2]"), true}, {"read-near-integer-sum", Print("X[(0.1 + 0.2) * 10 - 3]"), true}, {"read-near-integer-literal", Print("X[0.9999999999]"), true}, {"read-near-integer-above", Print("X[1.0000000001]"), true},
 		{"read-str", Print(`X["x"]`), true}, {"read-str-numeric-prefix", Print(`X["0th"]`), true}, {"read-str-numeric-prefix-bn", Print("X[\"\u09e7 \u09a8\u09ae\u09cd\u09ac\u09b0\"]"), true}, {"read-nil", Print("X[nil]"), true}, {"read-bool", Print("X[" + True() + "]"), true},
 		{"read-huge", Print("X[9223372036854775808]"), true}, {"read-inf", Print("X[10 ** 400]"), true},
 		{"read-2^32", Print("X[4294967296]"), true}, {"read-2^32+1", Print("X[4294967297]"), true}, {"read-neg-2^32-1", Print("X[0 - 4294967295]"), true},
 		{"read-2^31", Print("X[2147483648]"), true}, {"read-2^53", Print("X[9007199254740992]"), true}, {"read-1e18+1", Print("X[1000000000000000001]"), true}, {"read-2^64", Print("X[18446744073709551616]"), true},
 		{"write-2^32", "X[4294967296] = %f;", true}, {"write-2^32+1", "Y[4294967296 + 0] = %f;", true}, {"write-neg-2^32", "X[0 - 4294967296] = %f;", true}, {"write-2^64+1", "X[18446744073709551617] = %f;", true},
 		{"remove-2^32", "T = " + rm("X", "4294967296") + ";", true}, {"remove-2^32+1", "T = " + rm("X", "4294967297") + ";", true}, {"remove-neg-2^32", "T = " + rm("X", "0 - 4294967295") + ";", true},
-		{"write-nil-high", "X[" + L("X") + "] = nil;", true}, {"write-nil-neg", "X[-1] = nil;", true}, {"write-nil-frac", "X[1.5] = nil;", true}, {"write-nil-str", `X["x"] = nil;`, true}, {"write-str-numeric-prefix", `X["1st"] = 5;`, true}, {"write-nil-nonarray", "box[0] = nil;", true},
+		{"write-nil-high", "X[" + L("X") + "] = nil;", true}, {"write-nil-neg", "X[-1] = nil;", true}, {"write-nil-frac", "X[1.5] = nil;", true}, {"write-near-integer", "X[4.35 * 100 - 435 + 1] = 5;", true}, {"write-nil-str", `X["x"] = nil;`, true}, {"write-str-numeric-prefix", `X["1st"] = 5;`, true}, {"write-nil-nonarray", "box[0] = nil;", true},
 		{"write-neg", "X[-1] = %f;", true}, {"write-len", "X[" + L("X") + "] = %f;", true}, {"write-frac", "Y[0.5] = %f;", true}, {"write-str", `Y["x0"] = %f;`, true},
 		{"remove-len", "T = " + rm("X", L("X")) + ";", true}, {"remove-neg", "T = " + rm("X", "-1") + ";", true}, {"remove-frac", "T = " + rm("X", "0.5") + ";", true},
-		{"remove-str", "T = " + rm("X", `"x"`) + ";", true}, {"remove-str-numeric-prefix", "T = " + rm("X", `"0 kg"`) + ";", true}, {"remove-nonarray", "T = " + rm("5", "0") + ";", true},
+		{"remove-near-integer", "T = " + rm("X", "0.1 * 3 * 10 - 3") + ";", true}, {"remove-str", "T = " + rm("X", `"x"`) + ";", true}, {"remove-str-numeric-prefix", "T = " + rm("X", `"0 kg"`) + ";", true}, {"remove-nonarray", "T = " + rm("5", "0") + ";", true},
 		{"append-nonarray", "T = " + ap("box", "1") + ";", true}, {"len-nonarray", Print(L("box")), true},
 	}
 	return ops
@@ -210,6 +211,16 @@ func c11Passive(c *Ctx, cs *Case) {
 	c.Sample(cs.Gen, cs.X["use"])
 }
 
+// c11Freshness: an array literal makes new arrays at every level each time it is evaluated, however constant it looks
+func c11Freshness() []string {
+	return []string{
+		Lines(Fun("board", "", " "+Ret("[[0, 0, 0], [0, 0, 0]]")+" "), Var("b1", "board()"), Var("b2", "board()"), "b1[0][0] = 1;", "b1[1][2] = 2;", Print("b1"), Print("b2"), Print("board()")),
+		Lines(Var("rows", "[]"), For(Var("i", "0"), "i < 3", "i = i + 1", "{ "+Var("row", "[[0], [0, 0]]")+" row[0][0] = i + 1; rows = "+BI("append", "rows", "row")+"; }"), Print("rows"), "rows[0][1][1] = 9;", Print("rows[1]"), Print("rows[2]")),
+		Lines(Fun("tab", "", " "+Var("t", `[["a", "b"], [1, [2, 3]], []]`)+" t[1][1][0] = t[1][1][0] + 10; "+Ret("t")+" "), Print("tab()"), Print("tab()"), Var("k", "tab()"), "k[0][0] = 0;", Print("tab()"), Print("k")),
+		Lines(Var("x", "nil"), Var("total", "0"), For(Var("i", "0"), "i < 3", "i = i + 1", "{ x = [[1, 2], [3, 4]]; x[1][0] = x[1][0] - 3; total = total + 1 / (x[1][0] + 1); }"), Print("total"), Print("x")),
+	}
+}
+
 func c11Judge(c *Ctx, cs *Case) {
 	if cs.Gen == "string-index-consistency" {
 		c11StringIndex(c, cs)
@@ -335,6 +346,12 @@ func c11Run(c *Ctx) {
 			Lines(Var("cur", lit), Var("snaps", "[]"), For(Var("i", "0"), "i < 3", "i = i + 1", "{ snaps = "+BI("append", "snaps", "cur")+"; cur = "+BI("append", "cur", "i + 80")+"; }"), "cur[0] = 98;", Print("snaps"), Print("cur")),
 			Lines(Fun("grow", "x", " x = "+BI("append", "x", "70")+"; x[0] = 71; "+Ret("x")+" "), Var("mine", lit), Var("got", "grow(mine)"), Print("mine"), Print("got"), Var("again", "grow(mine)"), Print("mine"), Print("got"), Print("again")))
 	}
+	selfAppend = append(selfAppend, c11Freshness()...)
+	// an array stored in one of its own slots is still that one array
+	selfAppend = append(selfAppend,
+		Lines(Var("a", "[1, 2, 3]"), "a[1] = a;", "a[0] = 9;", Print("a[1][0]"), Print("a[1][1][0]"), "a[1][2] = 7;", Print("a[2]"), Print(BI("len", "a[1]")), Print("a[1] == a")),
+		Lines(Var("head", "[5, nil]"), "head[1] = head;", Var("al", "head"), "al[0] = 6;", Print("head[1][1][0]"), Fun("setboth", "x, y", " x[0] = y; y[0] = 8; "+Ret("x[0][0]")+" "), Var("s", "[0]"), Print("setboth(s, s)"), Print("s[0] == s"), Print("s[0][0][0] == s")),
+	)
 	// recursion through one call expression in a later argument, run more than once: what এড / the callee receives is what was passed
 	selfAppend = append(selfAppend,
 		Lines(Fun("chain", "n", " "+If("n == 0", "{ "+Ret("[]")+" }")+" "+Ret(BI("append", "[n]", "chain(n - 1)"))+" "), Print("chain(3)"), Print("chain(3)"), Print("chain(2)")),
